@@ -33,8 +33,21 @@ def run_c13(tier, args):
     n = 200000 if tier == "quick" else 20000000
     first = first_run_seed()
     total = Batch()
-    nreg, regbad = run_regressions("C13", lambda t: os.path.join(d, "dynarr_unchecked" if "\nbuild unchecked" in t else "dynarr_checked"))
-    flavours = [("checked", os.path.join(d, "dynarr_checked"), n), ("unchecked", os.path.join(d, "dynarr_unchecked"), n // 4)]
+    # second half: the <data> members sbeppc generates for the corpus schemas, through the generated accessors
+    import eng_wire
+    wbins, _ = eng_wire.build(tier, eng_wire.tier_flavours(tier))
+
+    def chooser(t):
+        if "\nengine wire" in t:
+            return wbins["unchecked" if "\nbuild unchecked" in t else "checked"]
+        return os.path.join(d, "dynarr_unchecked" if "\nbuild unchecked" in t else "dynarr_checked")
+
+    nreg, regbad = run_regressions("C13", chooser)
+    wn = 40000 if tier == "quick" else 2000000
+    flavours = [("checked", os.path.join(d, "dynarr_checked"), n), ("unchecked", os.path.join(d, "dynarr_unchecked"), n // 4),
+                ("wire_checked", wbins["checked"], wn), ("wire_unchecked", wbins["unchecked"], wn // 2), ("wire_unchecked_O0", wbins["unchecked_O0"], wn // 4)]
+    if tier != "quick":
+        flavours += [("wire_checked_clang20", wbins["checked_clang20"], wn // 4), ("wire_unchecked_clang20", wbins["unchecked_clang20"], wn // 4)]
     nviol = regbad
     herr = False
     for name, binary, cnt in flavours:
@@ -47,11 +60,11 @@ def run_c13(tier, args):
         b.tuples = {name + "|" + t for t in b.tuples}
         total.merge(b)
     wall = time.time() - t0
-    ops = sum(v for k, v in total.counters.items() if ".op." in k and not k.endswith("skipped"))
+    ops = sum(v for k, v in total.counters.items() if (".op." in k or ".c13w.op." in k) and not k.endswith("skipped"))
     cov = dict(
         evaluations=total.runs,
         distinct_nontrivial=len(total.tuples),
-        rule="one evaluation = one seeded history (1-60 operations, swarm-selected op kinds, seeded stale initial medium) of dynamic_array_ref<Byte,Value,Length,E> checked op by op against std::vector; distinct = distinct (build, length type, op kind, outcome, old-size class, new-size class vs capacity, position class) tuples that were actually executed (skipped ops excluded)",
+        rule="two halves. dynarr: one evaluation = one seeded history (1-60 operations, swarm-selected op kinds, seeded stale initial medium) of dynamic_array_ref<Byte,Value,Length,E> instantiated by hand, checked op by op against std::vector. wire_*: one evaluation = one seeded history (1-14 operations) on a <data> member of a corpus schema as sbeppc generates it (its length type, the schema's byte order, the flavour's byte type), obtained through the named accessor, get_by_tag, accessor(cursor_ops::init(c)), accessor(cursor_ops::init_dont_move(c)) or get_by_tag(view, cursor); after every operation (the history prefix is re-run on a fresh copy of a frame produced by the reference encoder, followed by 300 bytes of slack and a guard page) the length prefix read from the buffer in the schema's byte order and width, size(), the payload, the positions of returned iterators and every byte outside the prefix and the payload area in use are compared with std::vector / the initial medium. distinct = distinct (build, length type, op kind, outcome, old-size class, new-size class vs capacity, position class) tuples that were actually executed (skipped ops excluded)",
         samples=total.samples[:4],
         operations_executed=ops,
         op_counts={k: v for k, v in sorted(total.counters.items())},
@@ -60,7 +73,7 @@ def run_c13(tier, args):
         regression_plans_replayed=nreg,
         faults_injected={"none": "C13 is the fault-free control configuration of the data-view workload (DESIGN 1, 5); its capacity/hostile-prefix configuration is reported under C10"},
         configurations="4 length types x 2 byte orders x 3 value types x 3 byte types, drawn per history",
-        real_components=REAL,
+        real_components=REAL + eng_wire.REAL,
         stub_components=STUB,
         worker_deaths=total.worker_deaths,
     )
@@ -81,8 +94,11 @@ def run_c10_capacity(tier, out, first):
 
 
 def replay(prop, path):
-    d = build()
     plan = open(path).read()
+    if "\nengine wire" in plan:
+        import eng_wire
+        return eng_wire.replay(prop, path)
+    d = build()
     binary = os.path.join(d, "dynarr_unchecked" if "\nbuild unchecked" in plan else "dynarr_checked")
     viol, sig, fp, outp = exec_plan(binary, path)
     log(outp.strip())
